@@ -612,6 +612,10 @@ class C04(EngineCheck):
             'belongs to >=2 activated scopes (main / candidate / case sub-pipelines)')
     floors = {'shared-across-scopes': 0.1}
 
+    def strategy(self, tier):
+        base = super().strategy(tier)
+        return st.one_of(*([base] * 12), switch_in_recurrent_templates(tier), shared_failure_templates(tier))
+
     def oracle(self, case, refres, obs):
         v = []
         for i, o in enumerate(obs):
@@ -619,12 +623,15 @@ class C04(EngineCheck):
             if t:
                 v += _tag(t, i)
                 continue
+            v += _tag(oracle_iteration_bounds(o, case['program']), i)
+            if case.get('switch_in_recurrent'):
+                continue  # F8 region: only the model-free bounds
             v += _tag(O.oracle_executed(o, refres), i)
             v += _tag([x for x in O.oracle_kwargs(o, refres) if x[0] == 'wrong-kwargs'], i)
         return v
 
     def nontrivial(self, case, refres, obs):
-        return bool(shared_nodes(case['program'], refres))
+        return bool(shared_nodes(case['program'], refres)) or bool(case.get('switch_in_recurrent'))
 
     def classes(self, case, refres, obs):
         cl = super().classes(case, refres, obs)
@@ -766,6 +773,38 @@ def oracle_routing_per_iteration(o, case):
         elif dict(v[3]).get('n1', 0) != i:
             out.append(('stale-case-value', f'iteration {i}: {cons}.k0 = {R.canon(v)} belongs to iteration '
                                             f'{dict(v[3]).get("n1", 0)}'))
+    return out
+
+
+def oracle_iteration_bounds(o, program):
+    """model-free bounds that hold for every program shape, also where laziness inside a recurrent subgraph is
+    known to be broken (F8): a node outside every start->destination path executes at most once (plus its retry
+    attempts), and a node on such a path executes at most once per iteration of the subgraph(s) containing it"""
+    out = []
+    g = S.deps_graph(program)
+    idx = S.node_index(program)
+    counts = {}
+    for e in o.bodies:
+        counts[e['node']] = counts.get(e['node'], 0) + 1
+    paths = []
+    for _, _, m in S.rec_marks(program):
+        if (m[1], m[2]) not in [(p[0], p[1]) for p in paths]:
+            paths.append((m[1], m[2], S.rec_path_nodes(program, m[1], m[2], g)))
+    for nid, c in counts.items():
+        attempts = idx[nid].get('attempts') or 1
+        mine = [p for p in paths if nid in p[2]]
+        if not mine:
+            if c > attempts:
+                out.append(('outside-node-re-executed', f'{nid} is on no start->destination path but ran {c} times '
+                                                        f'(attempts={attempts})'))
+            continue
+        iterations = 1
+        for _, dest, _ in mine:
+            # every Recurrent result of the destination grants one more iteration
+            iterations *= 1 + sum(1 for e in o.bodies if e['node'] == dest and e.get('outcome') == 'rec')
+        if c > iterations * attempts:
+            out.append(('too-many-executions-per-iteration', f'{nid} ran {c} times in {iterations} iteration(s) '
+                                                             f'(attempts={attempts})'))
     return out
 
 
@@ -993,13 +1032,18 @@ class C11(EngineCheck):
     def strategy(self, tier):
         kw = self.gen_kwargs(tier)
         base = G.cases(**kw).map(_sanitize).filter(lambda c: S.has_kind(c['program'], 'rec'))
-        return st.one_of(*([base] * 12), rec_consumer_templates(tier))
+        return st.one_of(*([base] * 12), rec_consumer_templates(tier), switch_in_recurrent_templates(tier))
 
     def oracle(self, case, refres, obs):
         v = []
         for i, o in enumerate(obs):
             v += _tag(O.oracle_outcome(o, refres), i)
             if o.status != 'done':
+                continue
+            v += _tag(oracle_iteration_bounds(o, case['program']), i)
+            if case.get('switch_in_recurrent'):
+                # F8 region (laziness inside the subgraph is a known finding): bounds, routing and the final value
+                v += _tag(oracle_routing_per_iteration(o, case), i)
                 continue
             v += _tag(O.oracle_executed(o, refres), i)
             v += _tag(O.oracle_kwargs(o, refres), i)
